@@ -27,6 +27,7 @@ From CG Require Import Model.Lexer.
 From CG Require Import Model.Parser.
 From CG Require Import Spec.Printer.
 From CG Require Import Model.Ambiguity.
+From CG Require Import Model.Driver.
 (* add new Require lines above this line *)
 Require Import ExtrOcamlBasic ExtrOcamlString.
 Extraction Language OCaml.
@@ -86,5 +87,6 @@ Separate Extraction
   Printer.wf_stmt
   Printer.erase_grammar
   Ambiguity.check_ambiguity_best_effort
+  Driver.compile
   (* add new roots above this line *)
   Prelude.pow2.
